@@ -125,6 +125,14 @@ func planC14(tier string, root *simcore.RNG) *plan {
 		}
 		add(b, "append-self")
 	}
+	// E8: alignment sweep: a CRLF (and an LF) ASCII file of ~130 KB shifted byte by
+	// byte against the reader's buffer boundaries
+	for k := 0; k < 72; k++ {
+		add(bs("ascii", 600), fmt.Sprintf("pad-first-line:%d", k), "crlf")
+		if k%4 == 0 {
+			add(bs("ascii", 600), fmt.Sprintf("pad-first-line:%d", k))
+		}
+	}
 	// E7: what the path is
 	for _, b := range []string{bs("bin", 2), bs("ascii", 2), bs("bin", 0)} {
 		for _, op := range []string{"as-symlink", "as-directory", "as-devnull", "as-devzero", "as-missing", "odd-name"} {
